@@ -75,7 +75,7 @@ def chord(ref_intervals, ref_labels, est_intervals, est_labels):
 
 
 def melody(ref_time, ref_freq, est_time, est_freq, est_voicing, ref_reward):
-    ref_v, ref_c, est_v, est_c = direct(melody.to_cent_voicing, ref_time, ref_freq, est_time, est_freq, est_voicing, ref_reward)
+    ref_v, ref_c, est_v, est_c = direct(melody.to_cent_voicing, ref_time, ref_freq, est_time, est_freq, est_voicing=est_voicing, ref_reward=ref_reward)
     out = {}
     out["Voicing Recall"] = direct(melody.voicing_recall, ref_v, est_v)
     out["Voicing False Alarm"] = direct(melody.voicing_false_alarm, ref_v, est_v)
